@@ -425,3 +425,33 @@ Proof.
   pose proof (sup_c06_subscriber _ _ _ _ _ _ Hre0 Hdo Hrun Hok Q) as X.
   unfold last_sent in X. now rewrite Hb, Hbuf in X.
 Qed.
+
+(* C06 ("closed exactly once"): the progress half - a subscription whose context has ended DOES get closed.  The
+   closer goroutine's step (LSubUnreg: unsubscribe, then close) is enabled as soon as the subscription has been
+   set up and cancelled; if the context ended before SubscribeStateChanges had run, the set-up step is enabled
+   first.  Hence in a quiescent state every cancelled subscription is closed.  Together with close_once (at most
+   once, only after the context ended) and InvSubs (a closed channel is never a broadcast target): exactly once. *)
+Theorem sup_c06_cancelled_gets_closed c s c0 b :
+  find_sub c0 (subs s) = Some b -> sub_cancelled b = true -> sub_closed b = false ->
+  (sub_started b = true -> step c s (LSubUnreg c0) <> None) /\
+  (sub_started b = false -> step c s (LSubDo c0) <> None).
+Proof.
+  intros Hf Hc Hx. unfold step. cbn [step0]. rewrite Hf. split; intros Hs; rewrite Hs.
+  - rewrite Hc, Hx. cbn. discriminate.
+  - discriminate.
+Qed.
+
+Theorem sup_c06_quiescent_closed c s c0 b :
+  quiescent c s = true -> find_sub c0 (subs s) = Some b -> sub_cancelled b = true -> sub_closed b = true.
+Proof.
+  intros Q Hf Hc. destruct (sub_closed b) eqn:Hx; [reflexivity|]. exfalso.
+  pose proof (find_sub_In _ _ _ Hf) as Hin. pose proof (find_sub_id _ _ _ Hf) as Hid.
+  destruct (sup_c06_cancelled_gets_closed c s c0 b Hf Hc Hx) as [A B].
+  destruct (sub_started b) eqn:Hs.
+  - assert (Hl : In (LSubUnreg c0) (taus_nt c s)).
+    { in_chain ltac:(apply in_map_iff; exists b; split; [now rewrite Hid|exact Hin]). }
+    pose proof (quiescent_taus _ _ _ Q Hl) as H. apply (A eq_refl). unfold step. exact H.
+  - assert (Hl : In (LSubDo c0) (taus_nt c s)).
+    { in_chain ltac:(apply in_map_iff; exists b; split; [now rewrite Hid|exact Hin]). }
+    pose proof (quiescent_taus _ _ _ Q Hl) as H. apply (B eq_refl). unfold step. exact H.
+Qed.
